@@ -170,6 +170,54 @@ def run(ctx):
                       'schedule %s: %s at abstract step %d (results %s)' % (meta[tid]['preempt'], clause, step, meta[tid]['results']))
     for m in meta[1:3]:
         ctx.sample(m)
+    # ---- concurrent parse / split / format calls on an initialised lexer -------------------
+    import sqlparse as _sp
+    from ..shaperec import shape as _shape
+    CALLS = [lambda: _sp.format(REF, reindent=True, keyword_case='upper'),
+             lambda: _sp.format('select 1; select 2; select 3', output_format='python'),
+             lambda: _shape('select a from t where b in (select 1) -- c\n; select f(x) over (partition by y)'),
+             lambda: _sp.split('create function f() begin a; end; select 1'),
+             lambda: _sp.format('select a, b from t; select c from u where d = 1', reindent_aligned=True, strip_comments=True),
+             lambda: _sp.format('select aaa, (select bb, cc from u where k = 1) from tt; select 2', output_format='php', reindent=True),
+             lambda: _sp.format('insert into t (a, b) values (1, 2), (3, 4); select xx, yy from zzzz join w on a = b', reindent=True, comma_first=True)]
+    expected = [c() for c in CALLS]
+    nconc = 0
+    def conc(idx, chooser, label):
+        s2 = sched.Sched(len(idx), jobs=[CALLS[i] for i in idx], fresh=False)
+        try:
+            s2.run(chooser)
+            got = s2.results
+        except sched.Hang:
+            got = ['HANG'] * len(idx)
+        ctx.evals()
+        ctx.nontrivial(('conc', tuple(idx), label))
+        for t in range(len(idx)):
+            if got[t] != expected[idx[t]]:
+                ctx.violation({'calls': idx, 'choices': getattr(s2, 'choices', [])[:400], 'thread': t, 'tags': ['concurrent-calls'],
+                               'clause': 'concurrent-result-differs-from-sequential'},
+                              'thread %d of concurrent calls %s (%s) got %r instead of %r' % (t, idx, label, str(got[t])[:120], str(expected[idx[t]])[:120]))
+                return len(s2.events), False
+        return len(s2.events), True
+    pairs = [(i, j) for i in range(len(CALLS)) for j in range(len(CALLS))]
+    if quick:
+        pairs = [p for p in pairs if p[0] in (0, 1, 5) and p[1] in (0, 1, 6)]
+    for (i, j) in pairs:
+        # every single pre-emption of the first call by the whole second call
+        nsteps, ok = conc([i, j], sched.nonpreemptive({}), 'seq')
+        nconc += 1
+        ks = list(range(1, nsteps))
+        if len(ks) > (40 if quick else 400):
+            ks = sorted(set(ks[:15] + rng.sample(ks, (25 if quick else 385))))
+        for k in ks:
+            if not ok:
+                break
+            _, ok = conc([i, j], sched.nonpreemptive({k: 1}), 'preempt@%d' % k)
+            nconc += 1
+    for rnd in range(10 if quick else 300):
+        idx = [rng.randrange(len(CALLS)) for _ in range(3)]
+        conc(idx, sched.random_chooser(random.Random(ctx.seed * 1000 + rnd), switch=0.4), 'random%d' % rnd)
+        nconc += 1
+    ctx.cov['concurrent_call_schedules'] = nconc
     # ---- histories -----------------------------------------------------------------
     pristine = battery()
     hs = histories(ctx, quick)
